@@ -297,10 +297,10 @@ SPEC = {
     "facebook": dict(
         hosts=["https://www.facebook.com", "facebook.com", "http://m.facebook.com", "https://fr-fr.facebook.com", "https://fb.me"],
         full=["watch", "videos", "photos", "photo.php", "photo", "posts", "permalink", "permalink.php", "story.php", "groups", "profile.php",
-              "people", "l.php", "a.123", "pcb.456", "123456789", "1234567", "12345678abc", "zuck", "Some.Page-1", "x.php", "",
+              "people", "l.php", "a.123", "a.", "g.", "pcb.456", "123456789", "1234567", "12345678abc", "zuck", "Some.Page-1", "x.php", "",
               # handles that merely begin / end with a route word
               "peoplemag", "watchparty", "videosdaily", "myposts", "groupsfan", "photosof"],
-        reduced=["videos", "photos", "posts", "permalink", "groups", "people", "123456789", "1234567", "zuck", "a.123"],
+        reduced=["videos", "photos", "posts", "permalink", "groups", "people", "123456789", "1234567", "zuck", "a.123", "a."],
         queries=["", "v=123", "fbid=10&set=g.1", "fbid=10&set=a.2", "fbid=10&set=a.2&set=g.1", "fbid=10", "story_fbid=5&id=6", "id=6", "story_fbid=5",
                  "u=http%3A%2F%2Fx.com", "set=a.2", "v=", "id=", "fbid=&set=", "x=1&amp;id=7",
                  "v", "fbid&set=a.2", "fbid=10&set", "story_fbid&id=6", "story_fbid=5&id", "id", "u", "fbid=10&set=g.1&set=a.2",
@@ -314,6 +314,7 @@ SPEC = {
               "feed", "playlist", "results", "redirect", "about", "Name", "", "@", "@@"],
         reduced=["watch", "embed", "shorts", "channel", "user", "c", VID, "Name", "@handle", "@"],
         queries=["", "v=" + VID, "v=bad", "v=" + VID + "&list=PL1", "list=PL1", "v=" + VID + "&list=PL%26x%3D1", "list=PL%2523a&v=" + VID, "v=" + VID + "&list=PL%2526", "next=%2Fwatch%3Fv%3D" + VID, "next=%2Fwatch%3Fv%3Dx", "v=" + VID + "xyz",
+                 "u=x&next=%2Fwatch%3Fv%3D" + VID + "xyz", "continue=https%3A%2F%2Fwww.youtube.com%2Fsignin%3Fnext%3D%252Fwatch%253Fv%253D" + VID + "abc%26feature%3Dx",
                  "q=http%3A%2F%2Fx.org", "feature=share&v=" + VID, "next%3D%252Fwatch%253Fv%253Dzz", "v=", "V=" + VID,
                  "v=" + VID + "&list=", "list=", "list=&v=" + VID, "v", "feature=share&v", "v&list=PL1", "v&v=" + VID, "list", "list&v=" + VID, "&&v=" + VID + "&"],
         fragments=["", "/watch?v=" + VID, "%2Fwatch%3Fv%3D" + VID, "!/x", "/watch?v=bad"],
